@@ -14,9 +14,9 @@ def doc_of(case):
 
 
 def norm(html):
-    html = html.replace(">\n<", "><")
     while " \n" in html:  # spaces before a line ending inside text are insignificant
         html = html.replace(" \n", "\n")
+    html = html.replace(">\n<", "><")
     if html.endswith("\n"):
         html = html[:-1]
     return html
